@@ -221,7 +221,8 @@ Fixpoint run_actions (acts : list action) (m : sm) : sm * list event :=
         let m0 := next_state m n in
         let sv := should m0 in
         let '(m1, e1) := nested m0 now' in
-        let m1 := m1 <| should := sv |> in
+        (* the request survives the nested iteration only while the machine is still executing *)
+        let m1 := if engaged m1 then m1 <| should := sv |> else m1 in
         let '(m2, e2) := run_actions r m1 in
         (m2, off_if_idle m ++ off_if_default n ++ EvNow :: EvEnter n :: e1 ++ e2)
       else (m, [EvErr])
